@@ -84,6 +84,11 @@ def templates(rnd, u):
     add('unkn-writer', '\\zzunkA %s \\begin{zzenvA} \\zzunkB' % w(73), unkn=True)
     add('unkn-reader', '\\zzunkC %s \\zzunkA' % w(74), unkn=True)
     add('error-writer', '%s $x \\verb|a' % w(75))
+    add('unklang-writer', '\\usepackage{babel} %s \\foreignlanguage{latin}{%s} \\selectlanguage{austrian} %s'
+        % (w(77), w(78), w(79)), ml=True, lang='en-GB')
+    add('unklang-reader', '\\usepackage[ngerman,latin]{babel} %s "a %s' % (w(80), w(81)), ml=True, lang='en-GB')
+    add('unklang-reader2', '\\documentclass[ngerman,austrian]{article}\\usepackage{babel} %s "a %s' % (w(82), w(83)),
+        ml=True, lang='en-GB', dcls='article')
     add('item-writer', '\\begin{itemize}\\item[%s] x \\begin{enumerate}\\item y' % w(76))
     d = gdocs.random_document(rnd, size=rnd.randint(2, 5), max_depth=3, pack='*,.yvm.ext')
     add('generated-doc', d.src, pack='*,.yvm.ext')
